@@ -1009,8 +1009,15 @@ func installHooks() {
 	if overlayHooks != nil {
 		overlayHooks()
 	}
+	if simsyncHooks != nil {
+		simsyncHooks()
+	}
 }
 
 // overlayHooks is set by autoyield_test.go when the check is built with the
 // statement-level yield overlay.
 var overlayHooks func()
+
+// simsyncHooks is set by simsync_test.go when the check is built with
+// simulated mutexes.
+var simsyncHooks func()
